@@ -6,8 +6,10 @@ package hapsim
 // the result (RunConfig) is plain data and is what a replay file stores.
 
 import (
+	"encoding/json"
 	"fmt"
 	"math/rand/v2"
+	"os"
 	"reflect"
 	"sort"
 	"strings"
@@ -193,11 +195,12 @@ var defaultWeights = map[string]int{
 }
 
 type gen struct {
-	tcpShared    bool
-	curPrefSvc   string
-	defBackendOK map[string]bool
-	rng          *rand.Rand
-	opt          GenOptions
+	tcpShared     bool
+	curPrefSvc    string
+	defBackendOK  map[string]bool
+	defBackendSig map[string]string
+	rng           *rand.Rand
+	opt           GenOptions
 	// current model of the cluster as the generator sees it
 	objs map[string]map[string]client.Object
 	// enabled keys for this run
@@ -261,7 +264,13 @@ func (g *gen) put(o client.Object) {
 	g.objs[k][objKey(o)] = o
 }
 
-func (g *gen) del(kind, key string) { delete(g.objs[kind], key) }
+func (g *gen) del(kind, key string) {
+	delete(g.objs[kind], key)
+	if kind == KIngress {
+		// (no_new_default_backend: re-creating the ingress later would *start* to declare it again)
+		delete(g.defBackendOK, key)
+	}
+}
 
 func (g *gen) keys(kind string) []string { return sortedKeys(g.objs[kind]) }
 
@@ -272,32 +281,35 @@ func (g *gen) sanitize(o client.Object) {
 		return
 	}
 	key := objKey(ing)
-	if g.opt.Avoid["unique_host_claims"] {
-		hosts := map[string]bool{}
-		for _, r := range ing.Spec.Rules {
-			hosts[r.Host] = true
-		}
-		for _, t := range ing.Spec.TLS {
-			for _, h := range t.Hosts {
-				hosts[h] = true
+	// (constraints that take hosts away come first: the others look at what is left)
+	if g.opt.Avoid["ingress_hosts_fixed"] {
+		// KF-ingress-newer-than-notification: an update never makes an ingress name a host it did not name before
+		if prev, _ := g.objs[KIngress][key].(*networking.Ingress); prev != nil && g.world == nil {
+			had := map[string]bool{}
+			for _, r := range prev.Spec.Rules {
+				had[r.Host] = true
 			}
-		}
-		if ing.Spec.DefaultBackend != nil {
-			hosts[""] = true
-		}
-		for _, k := range []string{"redirect-from", "redirect-from-regex", "server-alias", "server-alias-regex"} {
-			if _, has := ing.Annotations[annPrefix+k]; !has {
-				continue
+			for _, t := range prev.Spec.TLS {
+				for _, h := range t.Hosts {
+					had[h] = true
+				}
 			}
-			if len(hosts) != 1 {
-				delete(ing.Annotations, annPrefix+k)
-				continue
+			var rules []networking.IngressRule
+			for _, r := range ing.Spec.Rules {
+				if had[r.Host] {
+					rules = append(rules, r)
+				}
 			}
-			v := "claim-" + ing.Namespace + "-" + ing.Name + ".local"
-			if strings.HasSuffix(k, "regex") {
-				v = "^claim-" + ing.Namespace + "-" + ing.Name + "[0-9]+\\.local$"
+			ing.Spec.Rules = rules
+			for i := range ing.Spec.TLS {
+				var hs []string
+				for _, h := range ing.Spec.TLS[i].Hosts {
+					if had[h] {
+						hs = append(hs, h)
+					}
+				}
+				ing.Spec.TLS[i].Hosts = hs
 			}
-			ing.Annotations[annPrefix+k] = v
 		}
 	}
 	if _, tcp := ing.Annotations[annPrefix+"tcp-service-port"]; tcp {
@@ -458,12 +470,51 @@ func (g *gen) sanitize(o client.Object) {
 		}
 	}
 	if g.opt.Avoid["no_new_default_backend"] {
+		// an ingress may keep the spec.defaultBackend it had in the initial world as long as nothing that
+		// decides its selection changes (becoming selected later is a new start as well)
+		sig := "class:" + ing.Annotations["kubernetes.io/ingress.class"] + "/"
+		if ing.Spec.IngressClassName != nil {
+			sig += *ing.Spec.IngressClassName
+		}
 		if g.world != nil {
 			if ing.Spec.DefaultBackend != nil {
 				g.defBackendOK[key] = true
+				g.defBackendSig[key] = sig
 			}
-		} else if ing.Spec.DefaultBackend != nil && !g.defBackendOK[key] {
+		} else if ing.Spec.DefaultBackend != nil && (!g.defBackendOK[key] || g.defBackendSig[key] != sig) {
 			ing.Spec.DefaultBackend = nil
+			delete(g.defBackendOK, key)
+		} else if ing.Spec.DefaultBackend == nil {
+			delete(g.defBackendOK, key) // it stopped declaring one: declaring it again would be a new start
+		}
+	}
+	// (last: it looks at the hosts the other constraints left)
+	if g.opt.Avoid["unique_host_claims"] {
+		hosts := map[string]bool{}
+		for _, r := range ing.Spec.Rules {
+			hosts[r.Host] = true
+		}
+		for _, t := range ing.Spec.TLS {
+			for _, h := range t.Hosts {
+				hosts[h] = true
+			}
+		}
+		if ing.Spec.DefaultBackend != nil {
+			hosts[""] = true
+		}
+		for _, k := range []string{"redirect-from", "redirect-from-regex", "server-alias", "server-alias-regex"} {
+			if _, has := ing.Annotations[annPrefix+k]; !has {
+				continue
+			}
+			if len(hosts) != 1 {
+				delete(ing.Annotations, annPrefix+k)
+				continue
+			}
+			v := "claim-" + ing.Namespace + "-" + ing.Name + ".local"
+			if strings.HasSuffix(k, "regex") {
+				v = "^claim-" + ing.Namespace + "-" + ing.Name + "[0-9]+\\.local$"
+			}
+			ing.Annotations[annPrefix+k] = v
 		}
 	}
 }
@@ -766,7 +817,7 @@ func (g *gen) genGlobal(cur map[string]string, nchanges int) map[string]string {
 
 // GenerateRun builds world and history for a profile.
 func GenerateRun(seed uint64, opt GenOptions) (*World, []Op) {
-	g := &gen{rng: rand.New(rand.NewPCG(seed, 0x68617073696d)), opt: opt, objs: map[string]map[string]client.Object{}, defBackendOK: map[string]bool{}}
+	g := &gen{rng: rand.New(rand.NewPCG(seed, 0x68617073696d)), opt: opt, objs: map[string]map[string]client.Object{}, defBackendOK: map[string]bool{}, defBackendSig: map[string]string{}}
 	if g.opt.Avoid == nil {
 		_, g.opt.Avoid = avoidFlags()
 	}
@@ -1284,4 +1335,59 @@ func dropPartialSegmentPaths(paths []string) []string {
 		}
 		ps = keep
 	}
+}
+
+// historyViolatesAvoid replays a recorded history through the generator's own
+// constraint enforcement: every ingress of the world and of the apply
+// operations must be a fixed point of sanitize in the state that precedes it.
+// A minimisation candidate that dropped an operation (a delete, an earlier
+// version of an object) can leave the constrained space; such a candidate is
+// not a witness of anything new.
+func historyViolatesAvoid(cfg *RunConfig) string {
+	if len(cfg.Avoid) == 0 || cfg.World == nil {
+		return ""
+	}
+	av := map[string]bool{}
+	for _, a := range cfg.Avoid {
+		av[a] = true
+	}
+	g := &gen{rng: rand.New(rand.NewPCG(cfg.Seed, 0x68617073696d)), opt: GenOptions{Avoid: av}, objs: map[string]map[string]client.Object{}, defBackendOK: map[string]bool{}, defBackendSig: map[string]string{}}
+	g.tcpShared = cfg.Seed%2 == 0
+	check := func(kind string, raw json.RawMessage, where string) string {
+		o := decodeObj(kind, raw)
+		if ing, ok := o.(*networking.Ingress); ok {
+			before, _ := json.Marshal(ing)
+			cp := ing.DeepCopy()
+			g.sanitize(cp)
+			after, _ := json.Marshal(cp)
+			if string(before) != string(after) {
+				if os.Getenv("HAPSIM_DEBUG_AVOID") != "" {
+					fmt.Fprintf(os.Stderr, "AVOID-DEBUG %s\n before %s\n after  %s\n", where, before, after)
+				}
+				return where + " leaves the constrained space of " + strings.Join(cfg.Avoid, ",")
+			}
+			// sanitize also keeps books (defBackendOK): run it on the real object too
+			g.sanitize(ing)
+		}
+		g.put(o)
+		return ""
+	}
+	g.world = &World{}
+	for _, wo := range cfg.World.Objects {
+		if why := check(wo.Kind, wo.Obj, "world object "+wo.Kind); why != "" {
+			return why
+		}
+	}
+	g.world = nil
+	for i, op := range cfg.Ops {
+		switch op.Type {
+		case "apply":
+			if why := check(op.Kind, op.Obj, fmt.Sprintf("operation %d (%s %s)", i+1, op.Kind, op.Key)); why != "" {
+				return why
+			}
+		case "delete":
+			g.del(op.Kind, op.Key)
+		}
+	}
+	return ""
 }
